@@ -259,6 +259,11 @@ func Verify(pub *PublicKey, hash []byte, r, s *big.Int) bool {
  */
 func Encrypt(pub *PublicKey, data []byte, random io.Reader, mode int) ([]byte, error) {
 	length := len(data)
+	if length == 0 {
+		// the key stream for an empty message is empty, which kdf reports as
+		// "all zero": without this check the retry loop below never ends
+		return nil, errors.New("Encrypt: plaintext is empty")
+	}
 	for {
 		c := []byte{}
 		curve := pub.Curve
